@@ -225,7 +225,7 @@ end
 
 /-- `parse_value`: the whole text is one value -/
 def parseValue (s : Bytes) : Option Val :=
-  match value (s.length + 2) 0 s with
+  match value (3 * s.length + 4) 0 s with
   | .ok v [] => some v
   | _ => none
 
